@@ -166,7 +166,8 @@ class ApproximationScheme(object):
                             rng = np.arange(start, stop)[cinds]
                         else:
                             rng = range(start, stop)
-                        wrt_ranges.append((abs_wrt, stop - start))
+                        # number of colored columns of this variable (its selected entries)
+                        wrt_ranges.append((abs_wrt, cend - cstart))
                         ccol2outvec[colored_start:colored_end] = rng
                     colored_start = colored_end
 
